@@ -1,9 +1,11 @@
-// c16apply runs the repository's own fix applier, analysis/lint/testutil.applyEdits (the
+// (mode "apply" of c16lint) runs the repository's own fix applier, analysis/lint/testutil.applyEdits (the
 // code behind the golden-file tests; unexported, reached through go:linkname, no hook),
 // and report.shortRange on inputs given on stdin.
 //
 //	shortfile <path>   ->  one line per AST node "short <descriptor> = <pos> <end>" (offsets), terminated by a line "end <n>"
 //	pos <filehex> <k> <off>*k  ->  "<nlines> <size> <line>:<col> ..." from go/scanner's line table and go/token's File.Position
+//	rw negdm <0|1> <expr> | rw simplify <expr>   ->  the real astutil.NegateDeMorgan / astutil.SimplifyParentheses on the
+//	        expression (prefix token encoding, see lean/Verif/C16/RwDriver.lean), result in the same encoding
 //	apply <srchex> <nfix> (<k> (<start> <stop> <newhex>)*k)*nfix   ->  "<len> <fnv64>" per fix joined by ';' ("panic" if the applier panicked)
 package main
 
@@ -29,17 +31,6 @@ import (
 //go:linkname shortRange honnef.co/go/tools/analysis/report.shortRange
 func shortRange(node ast.Node) (pos, end token.Pos)
 
-//go:linkname applyEdits honnef.co/go/tools/analysis/lint/testutil.applyEdits
-func applyEdits(src []byte, edits []runner.TextEdit) []byte
-
-func fnv(b []byte) uint64 {
-	h := uint64(14695981039346656037)
-	for _, c := range b {
-		h ^= uint64(c)
-		h *= 1099511628211
-	}
-	return h
-}
 
 func unhex(s string) ([]byte, error) {
 	if s == "-" {
@@ -54,10 +45,10 @@ func safeApply(src []byte, edits []runner.TextEdit) (out []byte, panicked bool) 
 			panicked = true
 		}
 	}()
-	return applyEdits(src, edits), false
+	return repoApplyEdits(src, edits), false
 }
 
-func main() {
+func applyMain() {
 	in := bufio.NewReaderSize(os.Stdin, 1<<20)
 	w := bufio.NewWriterSize(os.Stdout, 1<<20)
 	defer w.Flush()
@@ -213,10 +204,141 @@ func posLine(t []string) string {
 	return strings.Join(out, " ")
 }
 
+var binOps = map[string]token.Token{"&&": token.LAND, "||": token.LOR, "==": token.EQL, "!=": token.NEQ, "<": token.LSS,
+	"<=": token.LEQ, ">": token.GTR, ">=": token.GEQ, "+": token.ADD, "/": token.QUO}
+
+func parseExpr(t []string) (ast.Expr, []string, bool) {
+	if len(t) == 0 {
+		return nil, nil, false
+	}
+	tok, rest := t[0], t[1:]
+	switch tok {
+	case "t":
+		return ast.NewIdent("true"), rest, true
+	case "f":
+		return ast.NewIdent("false"), rest, true
+	case "v":
+		if len(rest) == 0 {
+			return nil, nil, false
+		}
+		return ast.NewIdent("v" + rest[0]), rest[1:], true
+	case "n":
+		if len(rest) == 0 {
+			return nil, nil, false
+		}
+		return &ast.BasicLit{Kind: token.INT, Value: rest[0]}, rest[1:], true
+	case "c":
+		if len(rest) == 0 {
+			return nil, nil, false
+		}
+		a, r, ok := parseExpr(rest[1:])
+		if !ok {
+			return nil, nil, false
+		}
+		return &ast.CallExpr{Fun: ast.NewIdent("f" + rest[0]), Args: []ast.Expr{a}}, r, true
+	case "p":
+		if len(rest) == 0 {
+			return nil, nil, false
+		}
+		a, r, ok := parseExpr(rest[1:])
+		if !ok {
+			return nil, nil, false
+		}
+		b, r, ok := parseExpr(r)
+		if !ok {
+			return nil, nil, false
+		}
+		return &ast.CallExpr{Fun: ast.NewIdent("p" + rest[0]), Args: []ast.Expr{a, b}}, r, true
+	case "(":
+		a, r, ok := parseExpr(rest)
+		return &ast.ParenExpr{X: a}, r, ok
+	case "!":
+		a, r, ok := parseExpr(rest)
+		return &ast.UnaryExpr{Op: token.NOT, X: a}, r, ok
+	}
+	op, ok := binOps[tok]
+	if !ok {
+		return nil, nil, false
+	}
+	a, r, ok := parseExpr(rest)
+	if !ok {
+		return nil, nil, false
+	}
+	b, r, ok := parseExpr(r)
+	if !ok {
+		return nil, nil, false
+	}
+	return &ast.BinaryExpr{X: a, Op: op, Y: b}, r, true
+}
+
+func showExpr(e ast.Expr) string {
+	switch e := e.(type) {
+	case *ast.Ident:
+		switch {
+		case e.Name == "true":
+			return "t"
+		case e.Name == "false":
+			return "f"
+		case strings.HasPrefix(e.Name, "v"):
+			return "v " + e.Name[1:]
+		}
+	case *ast.BasicLit:
+		return "n " + e.Value
+	case *ast.ParenExpr:
+		return "( " + showExpr(e.X)
+	case *ast.UnaryExpr:
+		if e.Op == token.NOT {
+			return "! " + showExpr(e.X)
+		}
+	case *ast.CallExpr:
+		if id, ok := e.Fun.(*ast.Ident); ok && len(e.Args) == 1 {
+			return "c " + id.Name[1:] + " " + showExpr(e.Args[0])
+		} else if ok && len(e.Args) == 2 {
+			return "p " + id.Name[1:] + " " + showExpr(e.Args[0]) + " " + showExpr(e.Args[1])
+		}
+	case *ast.BinaryExpr:
+		for k, v := range binOps {
+			if v == e.Op && e.X != nil && e.Y != nil {
+				return k + " " + showExpr(e.X) + " " + showExpr(e.Y)
+			}
+		}
+	}
+	return fmt.Sprintf("?%T", e)
+}
+
+func rwLine(t []string) (out string) {
+	defer func() {
+		if r := recover(); r != nil {
+			out = "panic"
+		}
+	}()
+	if len(t) < 3 {
+		return "bad-op"
+	}
+	switch t[1] {
+	case "negdm":
+		e, rest, ok := parseExpr(t[3:])
+		if !ok || len(rest) != 0 || (t[2] != "0" && t[2] != "1") {
+			return "bad-op"
+		}
+		return showExpr(astutil.NegateDeMorgan(e, t[2] == "1"))
+	case "simplify":
+		e, rest, ok := parseExpr(t[2:])
+		if !ok || len(rest) != 0 {
+			return "bad-op"
+		}
+		return showExpr(astutil.SimplifyParentheses(e))
+	}
+	return "bad-op"
+}
+
 func doLine(line string) string {
 	t := strings.Fields(line)
 	if len(t) > 0 && t[0] == "pos" {
 		return posLine(t)
+	}
+	if len(t) > 0 && t[0] == "rw" {
+		return rwLine(t)
 	}
 	if len(t) < 3 || t[0] != "apply" {
 		return "bad-op"
